@@ -35,6 +35,11 @@ def cases(prop, shard, nshards, seed, tier, want_models=False):
                 continue
             if mine():
                 yield {"family": "hostile-" + hops[0]["op"], "file": fn, "ops": hops}
+    # chain names that differ by letter case only (a / A) or whose order depends on whether case counts (D before c)
+    for fn in ("tests/488d.pdb", "tests/1DFU_1_M-N.cif", "tests/4WTI_1_T-P.cif", "tests/4gqj-assembly1.cif"):
+        for hops in ([{"op": "mixed-case-chains"}], [{"op": "mixed-case-chains"}, {"op": "chain-order", "seed": "mc", "mode": "reverse"}]):
+            if mine():
+                yield {"family": "hostile-mixed-case-chains", "file": fn, "ops": hops}
     # all models of an NMR ensemble in ONE Structure3D, an explicit model asked for (first, middle, last); also with
     # the models numbered from 0, so that the requested number can be 0
     for fn in ("tests/2HY9.cif", "tests/6RS3.cif"):
